@@ -267,7 +267,7 @@ Proof.
   assert (Hw : w' = w9) by (unfold w9; rewrite E; reflexivity). subst w'.
   pose proof (ring_of_spec w9 X false I) as Ha. pose proof (ring_of_spec w9 X true I) as Hb.
   exists X. split; [|split; [reflexivity|]].
-  - eapply same_core_QInv; [|exact I]. unfold same_core. cbn. auto.
+  - eapply same_core_QInv; [|exact I]. unfold same_core. repeat split; reflexivity.
   - destruct X as [xa xb]. cbn [sel fst snd] in Ha, Hb.
     assert (Ea : ring_of (w_h w9) (qaddr false) (fuel_of w9) = Some [3; 4; 5; 6; 7; 8; 9; 10; 11]) by (vm_compute; reflexivity).
     assert (Eb : ring_of (w_h w9) (qaddr true) (fuel_of w9) = Some []) by (vm_compute; reflexivity).
